@@ -220,9 +220,9 @@ func (c17) Gen(rng *rand.Rand, tier string, emit func(string)) {
 	}
 	c17GenMulti(rng, tier, sorter)
 	c17GenEco(rng, tier, sorter)
-	// thorough: the check runs `thorough_seeds` = 4 harness processes with consecutive seeds; the (mostly exhaustive,
-	// seed-independent) cases of the third pass are dealt out among them: process `seed mod 4` runs every 4th case,
-	// the four processes together run them all
+	// thorough: the check runs `thorough_seeds` = 8 harness processes with consecutive seeds; the (mostly exhaustive,
+	// seed-independent) cases of the third pass are dealt out among them: process `seed mod 8` runs every 8th case,
+	// the eight processes together run them all
 	part, nparts := c17Partition(tier)
 	for i, l := range later {
 		if i%nparts != part {
